@@ -57,7 +57,8 @@ def main() -> int:
 
             base = {f.key for f in new_findings(ctx)}
             if not base:  # on a violating tree every variant "fires" trivially: skip
-                st = selftest(prop, args.repo, base)
+                read_set = set(ctx.units) | set(repo.touched) | (set(repo.raw.touched) if getattr(repo, "_raw", None) is not None else set())
+                st = selftest(prop, args.repo, base, read_set)
                 ctx.selftest = st
                 if not st["ok"]:
                     return finish(ctx, explanation.strip(), level, t0, error=f"self-test of the checker failed: missed variants {st['missed']}, format twin {st['twin']}, refactoring sets raising an alarm {st.get('alarms')}")
